@@ -165,6 +165,44 @@ def writeBlocksGo (blockSize : Nat) (kvs : List KV) : Option (List (List KV)) :=
   if blockSize = 0 then none
   else blocksLoop blockSize (sortKVs kvs) (numBlocksGo (sortKVs kvs).length blockSize) 0
 
+/-! ### `TrieBucket.CollectKVs` (reverse lookup value → key; round 12)
+
+```
+for _, kv := range b.kvs { itr := kv.tree.NewPrefixIterator(nil)
+  for itr.Valid() { val := itr.Value()
+    if values.Contains(val) { result[val] = string(itr.Key()); values.Remove(val) }
+    if values.IsEmpty() { return }
+    itr.Next() } }
+```
+`values` (a roaring bitmap = a set) is a duplicate-free list; the writes into the caller's `result` map are
+returned in the order they happen. -/
+
+/-- the inner `for itr.Valid()` loop over one trie's pairs: (values left, writes so far, returned early) -/
+def collectPairs : List KV → List Nat → List (Nat × Key) → List Nat × List (Nat × Key) × Bool
+  | [], vs, res => (vs, res, false)
+  | (k, v) :: rest, vs, res =>
+    let vs' := if vs.contains v then vs.erase v else vs
+    let res' := if vs.contains v then res ++ [(v, k)] else res
+    if vs'.isEmpty then (vs', res', true) else collectPairs rest vs' res'
+
+/-- `CollectKVs`: the outer `range b.kvs` loop; the `return` inside ends both loops -/
+def collectTries (step : Bool) : List Node → List Nat → List (Nat × Key) → List (Nat × Key)
+  | [], _, res => res
+  | t :: ts, vs, res =>
+    let r := collectPairs (prefixIter step t []) vs res
+    if r.2.2 then r.2.1 else collectTries step ts r.1 r.2.1
+
+/-- spec: scan ALL pairs in enumeration order (no early exit), the first pair carrying a wanted value wins -/
+def firstHits : List KV → List Nat → List (Nat × Key)
+  | [], _ => []
+  | (k, v) :: rest, vs =>
+    if vs.contains v then (v, k) :: firstHits rest (vs.erase v) else firstHits rest vs
+
+/-- the wanted values still open after scanning the pairs -/
+def remVals : List KV → List Nat → List Nat
+  | [], vs => vs
+  | (_, v) :: rest, vs => remVals rest (if vs.contains v then vs.erase v else vs)
+
 /-! ### like dispatch (index/kv_store.go `indexKVStore.FindValuesByLike`) -/
 
 /-- `'*'` -/
